@@ -179,11 +179,16 @@ def locate_fn(spec):
     text, m = load_src(spec.src)
     fname = spec.name.split('::')[-1]
     try:
+        lo, hi = 0, None
         if spec.impl:
             s, o, c = rustsrc.find_impl(text, m, spec.impl)
-            it = rustsrc.find_fn(spec.src, text, m, fname, o + 1, c)
-        else:
-            it = rustsrc.find_fn(spec.src, text, m, fname)
+            lo, hi = o + 1, c
+        it = rustsrc.find_fn(spec.src, text, m, fname, lo, hi)
+        # R8: items under #[cfg(target_feature = "avx2")] are never verified; take the portable variant
+        guard = 0
+        while 'cfg(target_feature = "avx2")' in it.attrs and guard < 4:
+            it = rustsrc.find_fn(spec.src, text, m, fname, it.end, hi if hi is not None else len(text))
+            guard += 1
     except SrcError as e:
         raise GenError('lost anchor: %s (%s)' % (e, spec.name))
     return it
@@ -365,6 +370,7 @@ def emit_fn(spec, mode, probe=False):
             body = body[:1] + '\n        let mut __self = self;' + body[1:]
             rw.log.append(('R13', '`mut self` receiver -> `self` + `let mut __self = self;` (body uses __self)'))
         body = rw.visibility(body)
+        body = rw.strip_avx2(body)
         body = rw.flatten_paths(body)
         body = rw.asserts(body)
         body = rw.format_macros(body)
@@ -485,7 +491,7 @@ def emit_type(rel, name, keep, extra_attr=''):
     rw = Rewriter()
     attrs = rw.strip_attrs(it.attrs, keep)
     sig = rw.visibility(it.sig)
-    body = rw.pub_fields(rw.visibility(it.body))
+    body = rw.pub_fields(rw.visibility(rw.strip_avx2(it.body)))
     if it.body.startswith(';'):
         pass
     # tuple struct: make field pub
